@@ -105,6 +105,52 @@ PROPS = {
         "technique": TECH, "design_ref": "DESIGN.md §7 C08",
         "assumptions": ["frequency_weight > 0", "scores below f64::MAX / hit counters below u64::MAX"],
     },
+    "C09": {
+        "lean_modules": ["Cachelito.Props.C09"],
+        "streams": [macro_stream(nontrivial=["c09-call"])],
+        "monitors": ["C09"],
+        "rule": "generated call histories on real generated functions with scripted Ok/Err outcomes per call (impure body driven by the harness), both recognised Result spellings, all flavours, with and without max_memory; non-trivial = a call of a Result function without cache_if",
+        "level_text": "Lean theorems about the generated wrapper: an Err outcome leaves the cache exactly as the lookup left it, an Ok is handed to the engine, the body runs iff the lookup missed, every stored value is Ok in every reachable state (no call is ever served an Err), while all outcomes for a key were Err every call runs the body, and after the first Ok (absent eviction pressure) every later call is served it. Tied to the code by per-call comparison of return values, body-execution counts and cache dumps of real generated functions.",
+        "level_note": MODEL_NOTE + " KNOWN FINDING F7: return types that are Result but spelled through an alias, core::result::Result or a leading :: are not recognised by the macro (textual test) and their Err values are cached; the theorem is about the recognised spellings.",
+        "technique": TECH, "design_ref": "DESIGN.md §7 C09",
+        "assumptions": ["return type spelled Result<..> or std::result::Result<..>"],
+    },
+    "C10": {
+        "lean_modules": ["Cachelito.Props.C10"],
+        "streams": [macro_stream(nontrivial=["c10-call"])],
+        "monitors": ["C10"],
+        "rule": "generated call histories on real generated functions with logged cache_if predicates answering from a script; non-trivial = a call of a function with cache_if",
+        "level_text": "Lean theorems: the predicate is consulted exactly once per body execution, immediately after it, with that call's key and result, never on a hit; the engine store happens iff shouldStore (characterised in the four cases sync/async x Result or not); a rejected result leaves the post-lookup state so the next call runs the body; an accepted one is served afterwards (absent eviction pressure). Tied to the code by predicate logs, execution counts and cache dumps of real generated functions.",
+        "level_note": MODEL_NOTE,
+        "technique": TECH, "design_ref": "DESIGN.md §7 C10", "assumptions": [],
+    },
+    "C11": {
+        "lean_modules": ["Cachelito.Props.C11"],
+        "streams": [macro_stream(nontrivial=["c11-call"])],
+        "monitors": ["C11"],
+        "rule": "generated call histories on real generated functions (sync global, thread-local, async) with logged invalidate_on checks whose verdict changes between calls; non-trivial = a call of a function with invalidate_on",
+        "level_text": "Lean theorems: a value is served from the cache iff the lookup hit and the check answered false (then the body does not run); a stale entry re-executes the body and whatever is held under the key afterwards is the fresh entry (the old value never survives, all flavours); the next call's check sees the fresh value. Tied to the code by check logs, execution counts and cache dumps.",
+        "level_note": MODEL_NOTE,
+        "technique": TECH, "design_ref": "DESIGN.md §7 C11", "assumptions": [],
+    },
+    "C12": {
+        "lean_modules": ["Cachelito.Props.C12"],
+        "streams": [macro_stream(nontrivial=["group-invalidation-hit"])],
+        "monitors": ["C12"],
+        "rule": "episodes over 4 real generated functions drawn from a corpus with random tag/event/dependency/name metadata (sync and async mixed, name overrides), requests including undeclared names; non-trivial = a group invalidation that matched at least one registered cache",
+        "level_text": "Lean theorems over the system model (caches + invalidation registry): after a tag/event/dependency/name request every registered matching cache has empty store and queue, the returned count/boolean equals the number of such caches, unknown names change nothing, and the next call for any arguments runs the body (also after arbitrary other operations). Tied to the code by return values and the verif dumps of every cache instance after each operation.",
+        "level_note": MODEL_NOTE + " Cache names are assumed pairwise distinct.",
+        "technique": TECH, "design_ref": "DESIGN.md §7 C12", "assumptions": ["distinct cache names"],
+    },
+    "C13": {
+        "lean_modules": ["Cachelito.Props.C13"],
+        "streams": [macro_stream(nontrivial=["conditional-invalidation-removed", "group-invalidation-hit"])],
+        "monitors": ["C13"],
+        "rule": "episodes with invalidate_with / invalidate_all_with over random subsets of the stored keys and group invalidations, followed by further overflow histories; non-trivial = an invalidation that removed something",
+        "level_text": "Lean theorems: group invalidations leave every non-matching cache instance (incl. thread-scope ones) equal; invalidate_with / invalidate_all_with yield exactly store.filter(not p) and queue.filter(not p) with survivors' order, values, births and hit counters kept; the invariant is preserved system-wide; sizes and memory totals afterwards are those of the survivors, a following overflow evicts the oldest survivor, and invalidation commutes with stores of the survivors. Tied to the code by dumps of every cache instance after each operation.",
+        "level_note": MODEL_NOTE,
+        "technique": TECH, "design_ref": "DESIGN.md §7 C13", "assumptions": ["distinct cache names"],
+    },
     "C15": {
         "lean_modules": ["Cachelito.Props.C15"],
         "streams": [core_stream(nontrivial=["hit", "expiry"]), macro_stream(nontrivial=["stats-get", "stats-reset", "hit"])],
